@@ -13,11 +13,12 @@ MUTANT_CHECKS = {
     "m01": ["C01"], "m02": ["C01"], "m03": ["C04"], "m04": ["C05"], "m05": ["C06", "C02"], "m06": ["C07"], "m07": ["C11", "C09"],
     "m08": ["C14"], "m09": ["C04", "C11"], "m10": ["C03", "C18"], "m12": ["C10"], "m13": ["C15"], "m14": ["C16"], "m16": ["C17"],
     "m17": ["C18"], "m18": ["C19"], "m19": ["C20"], "m20": ["C08"], "m21": ["C09", "C18"], "m22": ["C18"], "m23": ["C16"],
-    "m24": ["C05"], "m25": ["C05"], "mc1": ["C12"], "mc2": ["C12"], "mc3": ["C12"], "mc4": ["C13", "C12"],
+    "m25": ["C05"], "mc1": ["C12"], "mc2": ["C12"], "mc3": ["C12"], "mc4": ["C13", "C12"],
     "r_13f78be": ["C20"], "r_1cdb0b7": ["C14"], "r_61e51ec": ["C04"], "r_633da70": ["C17"], "r_7a8b4f0": ["C06"],
     "r_806dc1b": ["C06", "C02"], "r_a2e52a4": ["C02", "C06"], "r_d3183d6": ["C09"], "r_e0ba222": ["C15"], "r_ed735e2": ["C20"],
     "r_ee8445d": ["C20"],
-}   # mc5 is equivalent for conveyors (DESIGN §16) and not listed
+}   # not listed: mc5 (equivalent for conveyors) and m24 (sorting by priority alone is equivalent: list.sort is stable and
+#     requests are appended in arrival order) -- DESIGN §16
 
 
 def sh(cmd, **kw):
